@@ -1,5 +1,5 @@
 CFG = {
-    "modules": ["Parsley.Props.C15", "Parsley.Props.C15Reparse", "Parsley.Props.C15Bin"],
+    "modules": ["Parsley.Props.C15", "Parsley.Props.C15Reparse", "Parsley.Props.C15Bin", "Parsley.Props.C15File", "Parsley.Props.C15Stream"],
     "theorems": ["Parsley.C15.loc_faithful_tokens", "Parsley.C15.wsEOLLoop_spec", "Parsley.C15.litLoop_bound",
                  # the RE-PARSE clause (Props/C15Reparse.lean, Lemmas/Trunc.lean, Lemmas/TruncObj.lean)
                  "Parsley.C15.reparses_of", "Parsley.C15.reparse_tokens", "Parsley.C15.wsNoEOL_reparses",
@@ -25,7 +25,23 @@ CFG = {
                  "Parsley.C15.chrP_local", "Parsley.C15.asciiChar_reparses", "Parsley.C15.crate_composites_reparse",
                  "Parsley.C15.mixed_composites_reparse",
                  # the side conditions are necessary (witnesses)
-                 "Parsley.C15.reparse_fails_for_positive_lookahead", "Parsley.C15.alt_reparse_needs_failTrunc"],
+                 "Parsley.C15.reparse_fails_for_positive_lookahead", "Parsley.C15.alt_reparse_needs_failTrunc",
+                 # the remaining ParsleyParser implementors (Props/C15File.lean; models Model/Xref.lean, Model/Rtps.lean, Model/FileParts.lean)
+                 "Parsley.C15.loc_faithful_file_parsers",
+                 "Parsley.C15.loc_faithful_xrefEntP", "Parsley.C15.xrefEntP_value_determined", "Parsley.C15.xrefEntP_reparses",
+                 "Parsley.C15.xrefEntP_no_panic",
+                 "Parsley.C15.loc_faithful_startXrefP", "Parsley.C15.startXrefP_pre", "Parsley.C15.startXrefP_trunc",
+                 "Parsley.C15.startXrefP_reparses",
+                 "Parsley.C15.loc_faithful_headerP", "Parsley.C15.headerP_loc", "Parsley.C15.headerP_pre", "Parsley.C15.headerP_trunc",
+                 "Parsley.C15.headerP_reparses",
+                 "Parsley.C15.loc_faithful_rtpsHeaderP", "Parsley.C15.rtpsHeaderP_value_determined", "Parsley.C15.rtpsHeaderP_reparses",
+                 "Parsley.C15.subHdrP_win", "Parsley.C15.loc_faithful_subHdrP", "Parsley.C15.subHdrP_value_determined",
+                 "Parsley.C15.subHdrP_reparses", "Parsley.C15.loc_faithful_rtpsPrims", "Parsley.C15.guidPrefixP_win",
+                 "Parsley.C15.loc_faithful_subMsgP", "Parsley.C15.subMsgP_reparses",
+                 "Parsley.C15.loc_faithful_rowP", "Parsley.C15.rowP_winDet", "Parsley.C15.rowP_reparses",
+                 "Parsley.C15.win_winDet", "Parsley.C15.reparses_of_winDet", "Parsley.C15.reparses_of_succ",
+                 # witness of the known finding C15-stream-parser-location (Props/C15Stream.lean, Model/StreamLoc.lean)
+                 "Parsley.C15.stream_location_witness"],
     "partial": {"(reparse, look-ahead composites)": "the location, cursor-restore and re-parse clauses are PROVED, for every buffer and cursor, "
                 "for every token parser of pdf_prim.rs, the tag matcher, StreamContentP (modulo its absolute `start` field), parse_pdf_obj at "
                 "every depth, AsciiChar, every binary parser of prim_binary.rs (all widths / byte orders / signedness, byte vector: bin_reparses, "
@@ -37,7 +53,15 @@ CFG = {
                 "component of Sequence does not look beyond its span): positive look-ahead Not(Not(p)) reports an empty span whose re-parse fails "
                 "(reparse_fails_for_positive_lookahead), an ordered choice whose first branch looks ahead changes branch on the span alone "
                 "(alt_reparse_needs_failTrunc). No parser of the crate is such a composite (the combinators are only used in their own tests). "
-                "Scanners are exempt from the re-parse clause."},
+                "Scanners are exempt from the re-parse clause.",
+                "(remaining implementors: oracle only)": "for the other ParsleyParser implementors the success clause is PROVED (Props/C15File.lean, all buffers and cursors: "
+                "start = cursor-before, cursor-after = end <= size, fixed width where there is one, value a function of the spanned bytes, re-parse, no panic) for XrefEntP (20 bytes), "
+                "StartXrefP, pdf_file HeaderP (with its one or two located comments tiling the span, re-based re-parse), the RTPS HeaderP (20), SubMessageHeaderP (4), "
+                "ProtocolVersionP / VendorIdP (2), GuidPrefixP (12), SubMessageP (4 + payload, incl. length 0 = rest of the buffer) and one cross-reference-stream row (w0+w1+w2, any widths). "
+                "NOT proved, checked by the oracle on the real code and by impl-vs-model on the owning property's model only: XrefSubSectP / XrefSectP (loops over entries / subsections), "
+                "TrailerP, IndirectP, BodyP, CSObjP, XrefStreamP as a whole, ObjStreamP members, PacketP (loop over sub-messages). TextExtractor has no model in this driver at all "
+                "(`nomodel`: oracle-only cases). The outer location of ObjStreamP and of a FILTERED XrefStreamP violates C15 (known finding C15-stream-parser-location, witness "
+                "stream_location_witness)."},
     "n": {"quick": 4000, "thorough": 200000},
     "exhaustive": {"quick": True, "thorough": True},
     "rule": "exhaustive buffers of length <= 2 (quick) / <= 3 (thorough) over a 30-symbol alphabet (whitespace, delimiters, digits, sign, "
@@ -71,13 +95,38 @@ CFG = {
             "(3) 30 (thorough 300) random storages of 0..9 bytes x every cursor x windows as in (1) under the 17 binary parsers (the integer's missing bytes lie behind the view); "
             "(4) every random token concatenation also on one window chosen with the model's help (view ends inside the span the parser reports on the whole storage, at its end or one "
             "byte after; anywhere after the cursor if it fails) and on that window nested in a wider one; corpus/C15/cut_windows.case holds the minimal instances. "
+            "BYTE-CLASS SWEEPS (emitSweep / sweepSites): EVERY byte value 0..255 at each position where a token parser decides by a hand-written SET of bytes - inside a hex string (between digits, alone, "
+            "after an odd digit, before `>`), as the single separator between two tokens (numbers, array elements, names, keywords, dictionary key/value, `n g R`, `n g obj`, startxref, xref), as the byte after a "
+            "name / operator / number / keyword, as the FIRST byte under every dispatcher and token parser, in a literal string (after a backslash, plain, after `(`), as comment terminator, alone / after a blank / "
+            "after CR under the four white-space parsers, as the EOL after `stream` and the byte before `endstream`, after `#` in a name / operator - 44 sites x 1..14 parsers x 256 values (~35k cases; thorough: also "
+            "in a fixed-surroundings view and in a view ending right after the swept byte): each of the 256 values is classified by the real code and compared with model and oracle; a panic of the real "
+            "parser is the outcome `panic …` = `bad panic` (seeded change `is_ascii_whitespace()` in HexString::parse: `<\\0>` panics in int_of_hex - caught, corpus/C15/byte_sets.case); "
+            "EVERY REMAINING ParsleyParser IMPLEMENTOR (Driver/C15File.lean; parser names fhdr sxref trailer:<d> xsect ind:<d> body:<d> os:<d>:<N>:<First> xs:<w0>:<w1>:<w2>:<Size>[:I<index>] "
+            "xsh:… (= xs behind /Filter /ASCIIHexDecode) cs:<d> te:<d> rpv rvid rgp rhdr rsmh rsm rpkt; contexts fresh, stream dictionaries built through the crate's public constructors; the value "
+            "is printed with every nested located part - header comments, xref subsections and their entries (XrefSubSectP / XrefEntP are private: observed as the parts of XrefSectP), the object of an "
+            "indirect object, the objects of a body, object-stream members, stream entries - re-based to the start of the outer value): ~120 constructs written as text (headers, startxref, trailers, indirect objects "
+            "incl. stream objects with direct / referenced / wrong /Length, bodies of several objects ending in garbage, content-stream objects of every kind, text-extractor programs) after 2 (thorough 5) leads and "
+            "before 2 (thorough 6) tails x cursor before / at / inside the construct, whole buffer, fixed-surroundings view and EVERY cut window [a,b) with a in {0, cursor} (thorough: also nested), truncated at every byte, "
+            "one byte changed at every third (thorough: every) position; 40 (thorough 400) classic tables from C13's writers (1-3 subsections, 0-3 entries, all three entry terminators, leads, header EOLs, followed by "
+            "trailer / a number / nothing; views ending inside the last entry / at the table end; one byte changed; cut inside an entry) + one table at every cursor and truncation; cross-reference stream rows "
+            "from C13's row writer under all 18 (thorough 48) width triples, with /Index, junk before and after, one row too few, every window, and the same rows as hex text behind /Filter /ASCIIHexDecode; "
+            "9 object streams from C14's writer (gaps, comments, white space, duplicate ids, unterminated member) x 2 header layouts x 3 paddings x 2 depth bounds, wrong /First, wrong /N, every window; "
+            "40 (thorough 300) RTPS packets from C20's encoder (0-3 sub-messages, payloads of 0..257 bytes, both byte orders, length 0 = rest) with each parser at its part, cursors at boundaries and inside, "
+            "windows cutting the first 24 bytes, wrong magic; all seven RTPS parsers at every cursor of 18 buffers of 0..5 bytes. Oracle for these (needs no model): cursor = end, start <= end <= size, "
+            "start = cursor for the parsers that do not skip white space first, re-parse of the span alone = equal value INCLUDING the re-based nested locations, nested spans inside the outer span, "
+            "XrefSectP: entries are consecutive 20-byte spans ending where their subsection ends, subsections in order inside the section; XrefStreamP entries / HeaderP comments tile the span exactly; "
+            "ObjStreamP members re-parsed one by one with parse_pdf_obj (`parts=` flags). TextExtractor cases are oracle-only (model output `nomodel`, counted as impl_vs_model.oracle_only). "
             "The oracle's buffer for a cut window is the window: end <= window size, span inside the window, failure leaves the cursor; "
             "non-trivial = buffer of >= 2 bytes or non-zero cursor (counted distinct by hash of the case)",
     "trusted_base": COMMON_TB + [
         "modelled, not verified: ParseBuffer primitives as list functions on a whole buffer (views: C17); std::str::from_utf8 as validUtf8",
         "the binary theorems are derived from C19's contract (Parsley.C19.uint_parse_spec / int_parse_spec / bytevec_spec); "
         "the generic combinator model Model/CombP.lean is tied to the code by this run (cmb:* cases); C18 ties the closed-expression model "
-        "Model/Comb.lean to the textbook PEG semantics"],
+        "Model/Comb.lean to the textbook PEG semantics",
+        "the remaining implementors are modelled by the owning properties' models (Model/Xref.lean C13, Model/Indirect.lean C05, Model/ObjStm.lean C14, Model/Rtps.lean C20, "
+        "Model/Filters.lean hexDecode C06) plus Model/FileParts.lean (HeaderP, StartXrefP, TrailerP, BodyP, CSObjP) and Model/StreamLoc.lean (the location the stream parsers report); all are tied to "
+        "the code, locations and failure cursors included, by this run; Props/C15File.lean imports Props/C13.lean (entry_spec) and Lemmas/Rtps.lean (C20)",
+        "rtps value types keep their fields private: observed through their derived Debug rendering (numbers and brackets)"],
     "assumptions": ["StreamContentT.start is location metadata: the re-parse clause compares it relative to the span start",
                     "scanners (value = skip count, span = skipped text) are exempt from the re-parse clause, not from the others",
                     "names / operators: `the span is the text of the value` is read as value = span with every `#` + two hex digits replaced by the coded byte, "
@@ -86,6 +135,12 @@ CFG = {
                     "propagate a component's error without restoring (IndirectP restores only to the start of the offending header number)",
                     "nested located values inside a combinator value are compared re-based to the span start (Sh.down); Rust's PartialEq on "
                     "LocatedVal ignores locations altogether, so this is stronger than `equal value`",
+                    "BodyP never fails and its span ends where the first FAILED indirect-object attempt left the cursor (it may include partly consumed garbage): the re-parse clause "
+                    "is checked on that span as it is (it holds on every generated case)",
+                    "parsers that need a context get a FRESH one (PDFObjContext::new(depth)), also for the re-parse; a /Length reference therefore resolves only inside a BodyP run",
+                    "ObjStreamP / XrefStreamP: the buffer is the decoded stream content; the located parts (members, entries) are what the success clause is about; their OUTER location is "
+                    "faithful only for an unfiltered XrefStreamP (checked) - otherwise known finding C15-stream-parser-location",
+                    "the cursor after a FAILURE of the new parsers is compared with the model (not for ObjStreamP, TextExtractor, filtered XrefStreamP) but not judged: none of them is token-level",
                     "look-ahead composites violating the side conditions of the combinator theorems are exempt from the re-parse clause "
                     "(it is false for them: witness theorems); the crate builds none outside the combinator tests"],
 }
@@ -100,5 +155,9 @@ LEVEL = {
             "clauses are proved as contract-preservation theorems over arbitrary component parsers (Sequence: first component local; Alternate: first-branch "
             "failures truncation-stable; Star/Not: body fails at end of buffer), the failure clause for arbitrary components, instantiated on every composite "
             "the crate builds; witnesses show the side conditions are necessary (positive look-ahead does not re-parse); "
+            "for the remaining ParsleyParser implementors the same success clauses are proved for XrefEntP, StartXrefP, the file HeaderP, the RTPS header / sub-message header / sub-message / "
+            "primitives and a cross-reference-stream row (fixed widths, value determined by the window, re-parse), and checked by an oracle that needs no model on the real XrefSectP (with its private "
+            "subsection / entry parsers as located parts), TrailerP, IndirectP, BodyP, ObjStreamP, XrefStreamP, CSObjP, TextExtractor and PacketP; the outer location of ObjStreamP and of a filtered "
+            "XrefStreamP is a recorded finding; "
             "the re-parse clause is also checked by the oracle on the real code for all parsers. Model tied to the Rust parsers by an exhaustive small-buffer run.",
 }
